@@ -1,0 +1,13 @@
+//go:build verif
+
+package tcp
+
+// VerifSeqNum, when set, overrides the random initial sequence number of default-mode SYN probes.
+var VerifSeqNum func() (uint32, bool)
+
+func verifSeqNum() (uint32, bool) {
+	if VerifSeqNum == nil {
+		return 0, false
+	}
+	return VerifSeqNum()
+}
